@@ -1,6 +1,27 @@
-//! C19 check (see /verif/DESIGN.md section 5 and /verif/mc/README-dev.md).
-use mclib::engine::{catch, finish, install_quiet_panic_hook, Ctx, Report, Tier};
-use serde_json::json;
+//! C19 — all binding generators are total, deterministic and closed on checked programs,
+//! and doc comments / names cannot terminate a comment or string early or inject tokens.
+//! (see /verif/DESIGN.md section 5 and /verif/mc/README-dev.md)
+//!
+//! Spaces (all enumerated completely):
+//!   U_P            mclib::progs::default_programs / plain_programs
+//!   doc placement  base programs x every comment position (and all at once) x hostile docs
+//!   name placement base programs x every name position x hostile names
+//! Subject: javascript::compile, typescript::compile, motoko::compile, rust::compile with
+//! the default config for the targets canister_call / agent / stub (six entry points).
+mod cases;
+mod gens;
+mod lex;
+mod model;
+mod oracle;
+
+use cases::Case;
+use gens::{Target, ALL_TARGETS};
+use mclib::engine::{finish, install_quiet_panic_hook, Ctx, Report, Tier};
+use model::View;
+use serde_json::{json, Value};
+use std::collections::BTreeMap;
+use std::sync::atomic::{AtomicU64, Ordering};
+use std::sync::Mutex;
 
 fn parse_args() -> (Tier, Option<String>, Vec<String>) {
     let args: Vec<String> = std::env::args().collect();
@@ -28,18 +49,526 @@ fn parse_args() -> (Tier, Option<String>, Vec<String>) {
     (tier, replay, rest)
 }
 
+// ---------------------------------------------------------------------------------------
+// one case
+
+#[derive(Clone, Debug)]
+struct Viol {
+    key: String,
+    msg: String,
+    target: Target,
+    clause: String,
+    subject: String,
+}
+
+#[derive(Default)]
+struct CaseStats {
+    pairs: u64,
+    gen_calls: u64,
+    validated: u64,
+    outcomes: Vec<String>,
+    front_end_rejected: bool,
+    twin_rejected: bool,
+    mo_skipped: bool,
+    dup_defs: Vec<(Target, String)>,
+}
+
+fn excerpt(s: &str, needle_line: Option<usize>) -> String {
+    let lines: Vec<&str> = s.lines().collect();
+    let (lo, hi) = match needle_line {
+        Some(l) => (l.saturating_sub(3), (l + 3).min(lines.len())),
+        None => (0, lines.len().min(12)),
+    };
+    lines[lo.min(lines.len())..hi].join("\n")
+}
+
+fn targets_for(v: &View) -> Vec<Target> {
+    ALL_TARGETS.iter().copied().filter(|t| *t != Target::Mo || v.motoko_ok).collect()
+}
+
+/// normalise a panic message for use in a key: keep the location, drop quoted payloads
+fn panic_site(msg: &str) -> String {
+    match msg.rsplit_once(" @ ") {
+        Some((m, loc)) => {
+            let head: String = m.chars().take(40).collect();
+            format!("{}@{}", loc.trim_start_matches("/repo/rust/"), head)
+        }
+        None => msg.chars().take(60).collect(),
+    }
+}
+
+/// Evaluate one case completely; pure (same input => same result) unless the subject is
+/// nondeterministic.
+fn eval_case(c: &Case, fresh_thread: bool) -> (Vec<Viol>, CaseStats) {
+    let mut st = CaseStats::default();
+    let mut out: Vec<Viol> = vec![];
+    let hostile = c.hostile.clone().unwrap_or_default();
+    let pos = c.pos.clone().unwrap_or_else(|| "program".into());
+    let mk = |target: Target, clause: &str, subject: &str, msg: String| -> Viol {
+        // placements: generator + clause + hostile string + position class (+ what the
+        // oracle points at); U_P programs: generator + clause + offending name + program
+        let key = if c.hostile.is_some() {
+            format!("{}|{}|{}|hostile={:?}|{}", target.name(), clause, subject, hostile, pos)
+        } else {
+            format!("{}|{}|{}|prog={}", target.name(), clause, subject, c.did.replace('\n', ""))
+        };
+        Viol { key, msg, target, clause: clause.to_string(), subject: subject.to_string() }
+    };
+    let checked = match gens::front_end(&c.did) {
+        Ok(x) => x,
+        Err(e) => {
+            st.front_end_rejected = true;
+            st.outcomes.push(format!("front-end-rejected:{}", e.split(':').next().unwrap_or("")));
+            return (out, st);
+        }
+    };
+    let targets = targets_for(&c.view);
+    st.mo_skipped = !c.view.motoko_ok;
+    let fresh = if fresh_thread { Some(gens::generate_on_fresh_thread(&c.did, &targets)) } else { None };
+    if fresh.is_some() {
+        st.gen_calls += targets.len() as u64;
+    }
+    let twin_checked = match &c.twin {
+        Some(t) => match gens::front_end(t) {
+            Ok(x) => Some(x),
+            Err(_) => {
+                st.twin_rejected = true;
+                None
+            }
+        },
+        None => None,
+    };
+    for (ti, &t) in targets.iter().enumerate() {
+        st.pairs += 1;
+        let r1 = gens::generate(&checked, t);
+        let r2 = gens::generate(&checked, t);
+        st.gen_calls += 2;
+        let o1 = match (&r1, &r2) {
+            (Err(p), _) | (_, Err(p)) => {
+                st.outcomes.push(format!("{}:panic", t.name()));
+                out.push(mk(t, "panic", &panic_site(p), format!("{} generator unwound: {p}", t.name())));
+                continue;
+            }
+            (Ok(a), Ok(b)) => {
+                if a != b {
+                    st.outcomes.push(format!("{}:nondeterministic", t.name()));
+                    out.push(mk(t, "nondeterministic", "same-thread", format!("{}: two runs on the same checked program differ:\n--- run 1\n{}\n--- run 2\n{}", t.name(), excerpt(a, None), excerpt(b, None))));
+                    continue;
+                }
+                a
+            }
+        };
+        if let Some(fr) = &fresh {
+            match &fr[ti] {
+                Ok(f) if f == o1 => {}
+                Ok(f) => {
+                    st.outcomes.push(format!("{}:nondeterministic", t.name()));
+                    out.push(mk(t, "nondeterministic", "fresh-thread", format!("{}: output on a fresh thread differs from the output on a worker with history:\n--- worker\n{}\n--- fresh\n{}", t.name(), excerpt(o1, None), excerpt(f, None))));
+                    continue;
+                }
+                Err(p) => {
+                    st.outcomes.push(format!("{}:nondeterministic", t.name()));
+                    out.push(mk(t, "nondeterministic", "fresh-thread-panic", format!("{}: fresh thread unwound ({p}) where the worker thread returned", t.name())));
+                    continue;
+                }
+            }
+        }
+        let lexed = lex::lex(o1, t.lang());
+        st.validated += 1;
+        let findings = oracle::closure(t, &lexed, &c.view);
+        for d in oracle::duplicate_definitions(t, &lexed) {
+            st.dup_defs.push((t, d));
+        }
+        let mut class = "ok".to_string();
+        for f in &findings {
+            class = f.clause.to_string();
+            let clause = if f.clause == "unbalanced" { "token-injection/unbalanced" } else { f.clause };
+            out.push(mk(t, clause, &f.subject, format!("{}: {}\n--- output\n{}", t.name(), f.detail, excerpt(o1, None))));
+        }
+        if let Some(tc) = &twin_checked {
+            st.gen_calls += 1;
+            match gens::generate(tc, t) {
+                Err(p) => {
+                    // the benign twin must not panic either (it is a checked program)
+                    out.push(mk(t, "panic", &panic_site(&p), format!("{} generator unwound on the benign twin: {p}", t.name())));
+                }
+                Ok(b) => {
+                    let lb = lex::lex(&b, t.lang());
+                    if !lb.errors.is_empty() {
+                        // a placeholder never breaks a literal: if it does the oracle is wrong
+                        out.push(mk(t, "unterminated", "benign-twin", format!("{}: benign twin output does not lex: {:?}\n{}", t.name(), lb.errors, excerpt(&b, None))));
+                    }
+                    if let Some(d) = oracle::differential(&lexed, &lb) {
+                        class = "token-injection".into();
+                        let line = first_diff_line(o1, &b);
+                        out.push(mk(t, "token-injection", "kind-sequence", format!("{}: {d}\n--- output with hostile text (excerpt)\n{}\n--- output with placeholder (excerpt)\n{}", t.name(), excerpt(o1, line), excerpt(&b, line))));
+                    }
+                }
+            }
+        }
+        st.outcomes.push(format!("{}:{}", t.name(), class));
+    }
+    (out, st)
+}
+
+fn first_diff_line(a: &str, b: &str) -> Option<usize> {
+    a.lines().zip(b.lines()).position(|(x, y)| x != y)
+}
+
+fn view_json(v: &View) -> Value {
+    json!({
+        "all_defs": v.all_defs, "reach_actor": v.reach_actor, "reach_init": v.reach_init, "has_actor": v.has_actor, "has_init": v.has_init,
+        "methods": v.methods, "service_def": v.service_def, "actor_ref": v.actor_ref, "motoko_ok": v.motoko_ok,
+    })
+}
+fn view_from(j: &Value) -> View {
+    let strs = |k: &str| -> Vec<String> { j[k].as_array().map(|a| a.iter().filter_map(|x| x.as_str().map(|s| s.to_string())).collect()).unwrap_or_default() };
+    View {
+        all_defs: strs("all_defs"),
+        reach_actor: strs("reach_actor").into_iter().collect(),
+        reach_init: strs("reach_init").into_iter().collect(),
+        has_actor: j["has_actor"].as_bool().unwrap_or(false),
+        has_init: j["has_init"].as_bool().unwrap_or(false),
+        methods: strs("methods"),
+        service_def: j["service_def"].as_str().map(|s| s.to_string()),
+        actor_ref: j["actor_ref"].as_str().map(|s| s.to_string()),
+        motoko_ok: j["motoko_ok"].as_bool().unwrap_or(false),
+    }
+}
+fn case_json(c: &Case, v: &Viol) -> Value {
+    json!({
+        "did": c.did, "twin": c.twin, "family": c.family, "hostile": c.hostile, "position": c.pos, "view": view_json(&c.view),
+        "target": v.target.name(), "clause": v.clause, "subject": v.subject,
+        "how": "c19 --replay <this file>: parses+checks `did`, runs the generator `target`, applies the C19 oracles",
+    })
+}
+fn case_from(j: &Value) -> Case {
+    Case {
+        family: j["family"].as_str().unwrap_or("").to_string(),
+        did: j["did"].as_str().unwrap_or("").to_string(),
+        twin: j["twin"].as_str().map(|s| s.to_string()),
+        view: view_from(&j["view"]),
+        hostile: j["hostile"].as_str().map(|s| s.to_string()),
+        pos: j["position"].as_str().map(|s| s.to_string()),
+    }
+}
+
+// ---------------------------------------------------------------------------------------
+// violation sink: keep the smallest case per key (deterministic across thread schedules)
+
+struct Kept {
+    size: (usize, String),
+    msg: String,
+    case: Value,
+}
+static SINK: Mutex<BTreeMap<String, Kept>> = Mutex::new(BTreeMap::new());
+static VIOL_TOTAL: AtomicU64 = AtomicU64::new(0);
+static DUP_DEFS: Mutex<BTreeMap<String, (u64, String)>> = Mutex::new(BTreeMap::new());
+
+fn record(c: &Case, v: &Viol) {
+    VIOL_TOTAL.fetch_add(1, Ordering::Relaxed);
+    let key = mclib::engine::mk_key(&v.key);
+    let size = (c.did.len(), c.did.clone());
+    let mut s = SINK.lock().unwrap();
+    match s.get(&key) {
+        Some(k) if k.size <= size => {}
+        _ => {
+            s.insert(key, Kept { size, msg: v.msg.clone(), case: case_json(c, v) });
+        }
+    }
+}
+
+fn run_case(c: &Case, rep: &mut Report) {
+    let (v1, st) = eval_case(c, true);
+    rep.evaluations += st.pairs;
+    rep.transitions += st.gen_calls;
+    rep.traces_validated += st.validated;
+    rep.states += 1;
+    if c.view.has_actor && !c.view.methods.is_empty() || !c.view.all_defs.is_empty() {
+        rep.nontrivial += st.pairs;
+    }
+    for o in &st.outcomes {
+        rep.outcome(o);
+    }
+    rep.count("programs", 1);
+    if st.front_end_rejected {
+        rep.count("front_end_rejected", 1);
+    }
+    if st.twin_rejected {
+        rep.count("twin_rejected", 1);
+    }
+    if st.mo_skipped {
+        rep.count("motoko_out_of_scope(non-identifier method name)", 1);
+    }
+    if c.twin.is_some() {
+        rep.count("cases_with_benign_twin", 1);
+    }
+    for (t, d) in &st.dup_defs {
+        rep.count("observation:duplicate_definition_name", 1);
+        let mut m = DUP_DEFS.lock().unwrap();
+        let e = m.entry(format!("{}:{}", t.name(), d)).or_insert((0, c.did.clone()));
+        e.0 += 1;
+        if c.did.len() < e.1.len() {
+            e.1 = c.did.clone();
+        }
+    }
+    if !v1.is_empty() {
+        // re-check once: the same input must give the same observation
+        let (v2, _) = eval_case(c, false);
+        let k2: Vec<&String> = v2.iter().map(|v| &v.key).collect();
+        for v in &v1 {
+            if v.clause == "nondeterministic" || k2.contains(&&v.key) {
+                record(c, v);
+            } else {
+                let mut f = v.clone();
+                f.clause = "nondeterministic".into();
+                f.key = format!("{}|recheck-differs", v.key);
+                f.msg = format!("observation not reproduced on re-check: {}", v.msg);
+                record(c, &f);
+            }
+        }
+    }
+    if rep.samples.len() < 2 && c.hostile.is_some() {
+        rep.sample(json!({"family": c.family, "did": c.did, "hostile": c.hostile, "position": c.pos, "outcomes": st.outcomes}));
+    }
+}
+
+// ---------------------------------------------------------------------------------------
+// oracle self-test (vacuity guard): mutated outputs must be caught
+
+fn oracle_selftest() -> Result<(), String> {
+    use gens::Lang;
+    // 1. un-escaping the TS doc comment must be caught by the differential
+    let ts_h = "/**\n * a */ export const x = 1; /* b\n */\nexport type T = bigint;\n";
+    let ts_b = "/**\n * zzzzzzzzzzzzzzzzzzzzzzzzzzzzzz\n */\nexport type T = bigint;\n";
+    if oracle::differential(&lex::lex(ts_h, Lang::Js), &lex::lex(ts_b, Lang::Js)).is_none() {
+        return Err("differential does not catch an unescaped */ in a TS doc comment".into());
+    }
+    let ts_ok = "/**\n * a *\\/ export const x = 1; /* b\n */\nexport type T = bigint;\n";
+    if let Some(d) = oracle::differential(&lex::lex(ts_ok, Lang::Js), &lex::lex(ts_b, Lang::Js)) {
+        return Err(format!("differential flags a correctly escaped doc comment: {d}"));
+    }
+    // 2. an unescaped quote in a JS key
+    let l = lex::lex("const a = IDL.Record({ 'a'b' : IDL.Nat });", Lang::Js);
+    if l.errors.is_empty() && oracle::balance(&oracle::code_tokens(&l)).is_none() {
+        let b = lex::lex("const a = IDL.Record({ 'zzz' : IDL.Nat });", Lang::Js);
+        if oracle::differential(&l, &b).is_none() {
+            return Err("an unescaped quote in a JS key is not caught".into());
+        }
+    }
+    // 3. closure: an undefined reference and a missing / doubled method are caught
+    let v = View { has_actor: true, methods: vec!["m".into(), "n".into()], motoko_ok: true, ..Default::default() };
+    let js = "export const idlFactory = ({ IDL }) => {\n const T = IDL.Nat;\n return IDL.Service({ 'm' : IDL.Func([T], [U], []), 'm' : IDL.Func([], [], []) });\n};\nexport const init = ({ IDL }) => { return []; };";
+    let f = oracle::closure(Target::Js, &lex::lex(js, Lang::Js), &v);
+    let has = |f: &[oracle::Finding], clause: &str, subj: &str| f.iter().any(|x| x.clause == clause && x.subject == subj);
+    if !has(&f, "undefined-name", "U") || !has(&f, "method-count", "m") || !has(&f, "method-count", "n") || f.len() != 3 {
+        return Err(format!("JS closure self-test: {f:?}"));
+    }
+    let mo = "module {\n public type T = Nat;\n public type Self = actor { m : shared T -> async U; m_ : shared () -> async () }\n}";
+    let f = oracle::closure(Target::Mo, &lex::lex(mo, Lang::Mo), &v);
+    if !has(&f, "undefined-name", "U") || !has(&f, "method-count", "m") || !has(&f, "method-count", "n") || f.len() != 3 {
+        return Err(format!("Motoko closure self-test: {f:?}"));
+    }
+    let rs = "use candid::{self, CandidType, Deserialize, Principal};\n#[derive(CandidType, Deserialize)]\npub enum V { #[serde(rename=\"x\")] X(candid::Nat), Y(Box<W>), Z{ a: T } }\npub type T = Option<V>;\npub struct Service(pub Principal);\nimpl Service {\n pub async fn m(&self, arg0: &T) -> Result<(Q,)> { ic_cdk::call(self.0, \"m\", (arg0,)).await }\n}\n";
+    let f = oracle::closure(Target::RsCall, &lex::lex(rs, Lang::Rs), &v);
+    if !has(&f, "undefined-name", "W") || !has(&f, "undefined-name", "Q") || !has(&f, "undefined-name", "Result") || !has(&f, "method-count", "n") || f.len() != 4 {
+        return Err(format!("Rust closure self-test: {f:?}"));
+    }
+    // 4. a raw string terminated early is caught as unbalanced / differential
+    let rs_h = "pub static S: [u8; 3] = *br#\"service : { \"#\" : () -> () }\"#;";
+    let rs_b = "pub static S: [u8; 3] = *br#\"service : { \"z\" : () -> () }\"#;";
+    let (lh, lb) = (lex::lex(rs_h, Lang::Rs), lex::lex(rs_b, Lang::Rs));
+    if oracle::differential(&lh, &lb).is_none() {
+        return Err("early termination of a raw string is not caught".into());
+    }
+    Ok(())
+}
+
+// ---------------------------------------------------------------------------------------
+
+fn build_cases(tier: Tier) -> Vec<(String, Vec<Case>)> {
+    use mclib::progs;
+    let mut levels: Vec<(String, Vec<Case>)> = vec![];
+    // U_P
+    let cap = tier.pick(4000, 1_000_000);
+    let up: Vec<Case> = progs::default_programs(cap).iter().map(|p| cases::upstream_case("U_P/default", p)).collect();
+    levels.push(("U_P default_programs".into(), up));
+    let upp: Vec<Case> = progs::plain_programs(cap).iter().map(|p| cases::upstream_case("U_P/plain", p)).collect();
+    levels.push(("U_P plain_programs".into(), upp));
+    // doc placements
+    let docs = cases::hostile_docs();
+    let bases = cases::doc_bases();
+    let mut dc = vec![];
+    for (bn, b) in &bases {
+        for h in &docs {
+            cases::doc_cases(bn, b, std::slice::from_ref(h), &mut dc);
+        }
+    }
+    levels.push(("doc placement: bases x positions x hostile docs".into(), dc));
+    // two-line docs and concatenations: every ordered pair of a core alphabet
+    let core: Vec<String> = match tier {
+        Tier::Quick => docs.iter().take(8).cloned().collect(),
+        Tier::Thorough => docs.clone(),
+    };
+    let mut dc2 = vec![];
+    for (bn, b) in bases.iter().take(tier.pick(2, bases.len())) {
+        for h1 in &core {
+            for h2 in &core {
+                cases::doc_cases(bn, b, &[h1.clone(), h2.clone()], &mut dc2);
+                if tier == Tier::Thorough {
+                    cases::doc_cases(bn, b, &[format!("{h1}{h2}")], &mut dc2);
+                }
+            }
+        }
+    }
+    levels.push(("doc placement: two-line docs and concatenations (ordered pairs)".into(), dc2));
+    // name placements
+    let names = cases::hostile_name_alphabet();
+    let mut nc = vec![];
+    let mut skipped = 0;
+    for (bn, b) in &cases::name_bases() {
+        for h in &names {
+            skipped += cases::name_cases(bn, b, h, true, &mut nc);
+        }
+    }
+    // identifier-shaped names (target keywords) also next to identifier siblings
+    for (bn, b) in &bases {
+        for h in &names {
+            if !cases::needs_twin(h) {
+                skipped += cases::name_cases(bn, b, h, false, &mut nc);
+            }
+        }
+    }
+    levels.push((format!("name placement: bases x positions x hostile names ({skipped} ill-formed placements skipped)"), nc));
+    if tier == Tier::Thorough {
+        // concatenations of two special names at every position of the twin bases
+        let special: Vec<String> = names.iter().filter(|n| cases::needs_twin(n) && n.chars().count() <= 3).cloned().collect();
+        let mut nc2 = vec![];
+        let mut sk = 0;
+        for (bn, b) in &cases::name_bases() {
+            for a in &special {
+                for c in &special {
+                    let s = format!("{a}{c}");
+                    if !names.contains(&s) {
+                        sk += cases::name_cases(bn, b, &s, true, &mut nc2);
+                    }
+                }
+            }
+        }
+        levels.push((format!("name placement: concatenations of two short hostile names ({sk} ill-formed skipped)"), nc2));
+    }
+    levels
+}
+
 fn main() {
     install_quiet_panic_hook();
-    let (tier, replay, _rest) = parse_args();
-    if let Some(path) = replay {
-        let _ = path;
-        eprintln!("replay not implemented yet");
+    let (tier, replay, rest) = parse_args();
+    if rest.first().map(|s| s.as_str()) == Some("probe") {
+        // debugging aid: c19 probe file.did
+        let src = std::fs::read_to_string(&rest[1]).unwrap();
+        match gens::front_end(&src) {
+            Err(e) => println!("FRONT END: {e}"),
+            Ok(c) => {
+                for t in ALL_TARGETS {
+                    println!("=================== {}", t.name());
+                    match gens::generate(&c, t) {
+                        Ok(s) => println!("{s}"),
+                        Err(e) => println!("PANIC: {e}"),
+                    }
+                }
+            }
+        }
+        return;
+    }
+    if rest.first().map(|s| s.as_str()) == Some("bench") {
+        // debugging aid: time per generator on one file
+        let src = std::fs::read_to_string(&rest[1]).unwrap();
+        let t0 = std::time::Instant::now();
+        for _ in 0..200 {
+            let _ = gens::front_end(&src);
+        }
+        println!("front_end: {:?}/call", t0.elapsed() / 200);
+        let c = gens::front_end(&src).unwrap();
+        for t in ALL_TARGETS {
+            let t0 = std::time::Instant::now();
+            for _ in 0..200 {
+                let _ = gens::generate(&c, t);
+            }
+            println!("{}: {:?}/call", t.name(), t0.elapsed() / 200);
+            let o = gens::generate(&c, t).unwrap_or_default();
+            let t0 = std::time::Instant::now();
+            for _ in 0..200 {
+                let l = lex::lex(&o, t.lang());
+                let _ = oracle::closure(t, &l, &model::View::default());
+            }
+            println!("   lex+closure: {:?}/call", t0.elapsed() / 200);
+        }
+        let t0 = std::time::Instant::now();
+        for _ in 0..200 {
+            let _ = gens::generate_on_fresh_thread(&src, &[]);
+        }
+        println!("fresh thread spawn + front end: {:?}/call", t0.elapsed() / 200);
+        return;
+    }
+    if let Err(e) = oracle_selftest() {
+        eprintln!("ORACLE SELF-TEST FAILED: {e}");
         std::process::exit(2);
     }
-    let ctx = Ctx::new("C19", tier, tier.pick(120, 1200));
+    if let Some(path) = replay {
+        let body: Value = match std::fs::read_to_string(&path).ok().and_then(|s| serde_json::from_str(&s).ok()) {
+            Some(v) => v,
+            None => {
+                eprintln!("cannot read replay file {path}");
+                std::process::exit(2);
+            }
+        };
+        let c = case_from(&body["case"]);
+        let want_key = body["key"].as_str().unwrap_or("").to_string();
+        let (vs, _) = eval_case(&c, true);
+        let hit = vs.iter().find(|v| mclib::engine::mk_key(&v.key) == want_key);
+        match hit {
+            Some(v) => {
+                println!("REPRODUCED property=C19 key={}\n{}\n--- input (.did)\n{}", want_key, v.msg, c.did);
+                std::process::exit(1);
+            }
+            None => {
+                println!("NOT REPRODUCED property=C19 key={want_key} (observed keys: {:?})", vs.iter().map(|v| mclib::engine::mk_key(&v.key)).collect::<Vec<_>>());
+                std::process::exit(0);
+            }
+        }
+    }
+    let ctx = Ctx::new("C19", tier, tier.pick(55, 570));
     let mut rep = Report::new();
-    let _ = catch(|| ());
-    rep.sample(json!("skeleton"));
-    let code = finish(&ctx, rep, "skeleton", &[], json!({}));
+    let levels = build_cases(tier);
+    let mut scope = vec![];
+    for (name, cs) in &levels {
+        let r = ctx.par_range(name, cs.len() as u64, 8, || (), |_, i, rep| run_case(&cs[i as usize], rep));
+        let with_twin = cs.iter().filter(|c| c.twin.is_some()).count();
+        scope.push(json!({"level": name, "programs": cs.len(), "with_benign_twin": with_twin}));
+        rep.merge(r);
+    }
+    // feed the kept (smallest per key) violations into the report, in key order
+    let total = VIOL_TOTAL.load(Ordering::Relaxed);
+    {
+        let sink = SINK.lock().unwrap();
+        for (k, v) in sink.iter() {
+            rep.violation(k, v.msg.clone(), v.case.clone());
+        }
+        rep.violation_count = total;
+    }
+    let dups: Vec<Value> = DUP_DEFS.lock().unwrap().iter().take(40).map(|(k, (n, did))| json!({"target:name": k, "programs": n, "smallest_program": did})).collect();
+    let rule = "for every program x generator (js, ts, mo [identifier method names only], rs-call, rs-agent, rs-stub): no unwind; run1 == run2 == run on a fresh thread; \
+output lexes without unterminated string/comment and with balanced ()[]{}; every referenced bare type identifier is defined in the output (per scope for JS) or is one of the generator's fixed words; \
+every method of the main service is mentioned exactly once in the service block (decoded string key / identifier / Rust string literal / stub attribute); \
+with a benign twin: token-kind sequences (ident/string/comment/number/punct char, layout-dependent trailing separators removed) are identical. \
+nontrivial = pairs whose program has a definition or a main service with a method";
+    let assumptions = [
+        "Motoko line comments end at LF only; ECMAScript line terminators are LF CR LS PS; Rust line comments end at LF (bare CR in a Rust doc comment is rejected by rustc but is not a lexical injection)",
+        "definition-name collisions (two definitions with one output name) are recorded as observations, not violations",
+        "the Rust generator is run with the empty config (didc bind without -c) for the targets canister_call, agent, stub",
+        "doc comments are only placed in front of bare-identifier names: the tokenizer drops doc comments in front of quoted names",
+    ];
+    let code = finish(&ctx, rep, rule, &assumptions, json!({"scope": scope, "generators": ALL_TARGETS.iter().map(|t| t.name()).collect::<Vec<_>>(), "observations_duplicate_definitions": dups,
+        "hostile_docs": cases::hostile_docs().len(), "hostile_names": cases::hostile_name_alphabet().len()}));
     std::process::exit(code);
 }
